@@ -163,9 +163,50 @@ func (c *Ctx) decoderTagFields(fn *ssa.Function) map[string]map[*types.Var]bool 
 						out[tag][f] = true
 					}
 				}
+				// a case body moved into a helper of the playlist package (not an attribute-list decoder of a
+				// tag struct, which T3 covers): the fields the helper stores belong to this tag
+				if call, ok := in.(*ssa.Call); ok {
+					for f := range c.tagHelperStores(call.Call.StaticCallee(), 0) {
+						out[tag][f] = true
+					}
+				}
 			}
 		}
 	}
+	return out
+}
+
+func (c *Ctx) tagHelperStores(g *ssa.Function, depth int) map[*types.Var]bool {
+	out := map[*types.Var]bool{}
+	if g == nil || depth > 3 || g.Blocks == nil || g.Pkg == nil || g.Pkg.Pkg.Path() != modPath+"/pkg/playlist" {
+		return out
+	}
+	if len(c.decoderAttrFields(g)) > 0 {
+		return out
+	}
+	tagDecoder := false
+	allInstrs(g, func(in ssa.Instruction) {
+		if call, ok := in.(*ssa.Call); ok && isFuncNamed(call.Call.StaticCallee(), "strings", "HasPrefix") && len(call.Call.Args) == 2 {
+			if lit, ok := constString(call.Call.Args[1]); ok && strings.HasPrefix(lit, "#EXT") {
+				tagDecoder = true
+			}
+		}
+	})
+	if tagDecoder {
+		return out
+	}
+	allInstrs(g, func(in ssa.Instruction) {
+		if st, ok := in.(*ssa.Store); ok {
+			if f, _ := fieldOfAddr(st.Addr); f != nil && isPlaylistField(c, f) {
+				out[f] = true
+			}
+		}
+		if call, ok := in.(*ssa.Call); ok {
+			for f := range c.tagHelperStores(call.Call.StaticCallee(), depth+1) {
+				out[f] = true
+			}
+		}
+	})
 	return out
 }
 
@@ -414,7 +455,7 @@ func (c *Ctx) decoderAttrFields(fn *ssa.Function) map[string]map[*types.Var]bool
 			continue
 		}
 		bo, ok := iff.Cond.(*ssa.BinOp)
-		if !ok || bo.Op != token.EQL {
+		if !ok || (bo.Op != token.EQL && bo.Op != token.NEQ) {
 			continue
 		}
 		name, ok := constString(bo.Y)
@@ -422,13 +463,20 @@ func (c *Ctx) decoderAttrFields(fn *ssa.Function) map[string]map[*types.Var]bool
 			continue
 		}
 		// the left side must be the range key over the attribute map
-		if _, isExtract := bo.X.(*ssa.Extract); !isExtract {
+		if ex, isExtract := bo.X.(*ssa.Extract); !isExtract || (bo.Op == token.NEQ && ex.Index != 1) {
 			continue
 		}
 		if out[name] == nil {
 			out[name] = map[*types.Var]bool{}
 		}
 		tb := b.Succs[0]
+		if bo.Op == token.NEQ {
+			// `if key != "NAME" { continue }`: the attribute is handled where the test fails
+			tb = b.Succs[1]
+			if len(tb.Preds) != 1 {
+				continue
+			}
+		}
 		for _, d := range fn.Blocks {
 			if !tb.Dominates(d) {
 				continue
